@@ -4,6 +4,8 @@
  * events:  CFG boot full_open full_close tilt_ms tilt_type margin pos0 tilt0 now0
  *          SET d           outputs of the shutter: 0 off, 1 down, 2 up (written to the pins directly)
  *          POKE pos tilt   overwrite the stored position / tilt
+ *          RESEND ph       ph us after the last callback the command for the direction already energised is sent again:
+ *                          the real supla_esp_gpio_relay_hi(port of that direction, 1) runs (pins unchanged)
  *          CB dt           the timer callback runs dt microseconds after the previous one
  * outputs: REPORT : <8 value bytes>   (the value handed to supla_esp_channel_value__changed, inside the callback)
  *          ST pos tilt up_time down_time dir reported_position reported_tilt   (after every CB) */
@@ -76,6 +78,14 @@ static void run_case(int n, char **lines) {
       supla_esp_gpio_set_hi(DOWN_GPIO, d == 1 ? 1 : 0);
     } else if (!strncmp(l, "POKE", 4)) {
       supla_esp_state.rs_position[0] = (int)a[0]; supla_esp_state.tilt[0] = (int)a[1];
+    } else if (!strncmp(l, "RESEND", 6)) {
+      int d = dir_now();
+      if (d != 0) {
+        unsigned long long at = last_cb + (unsigned long long)a[0];
+        if (v_now < at) v_now = at;
+        supla_esp_gpio_relay_hi(d == 2 ? UP_GPIO : DOWN_GPIO, 1);
+        v_now = at;        /* the 10.02 ms busy-wait of the relay operation is not part of the script */
+      }
     } else if (!strncmp(l, "CB", 2)) {
       unsigned long long target = last_cb + (unsigned long long)a[0];
       if (v_now > target) vout("CLOCK-AHEAD %llu %llu", v_now, target);
